@@ -1,7 +1,7 @@
 #!/bin/bash
 # usage: lib/seed_queue.sh <Cxx> <worktree> — serialised (flock) confirm+trial+keep of a seeding worktree's changes
 prop=$1; wt=$2
-exec 9>/verif/build/seed.lock
+exec 9>/verif/build/${SEED_LOCK:-seed.lock}
 flock 9
 /verif/lib/seed_process.sh "$prop" "$wt" ${@:3} > /verif/build/logs/seed-$prop-$$.txt 2>&1
 /verif/lib/seed_keep_all.sh "$prop" "$wt" >> /verif/build/logs/seed-$prop-$$.txt 2>&1
